@@ -10,5 +10,6 @@ if [ ! -f ../ocaml/gen/model.ml ] || [ model.ml -nt ../ocaml/gen/model.ml ] || [
   cd ../ocaml
   rm -rf _obj && mkdir _obj
   cp gen/model.ml gen/model.mli driver.ml _obj/
+  (cd _obj && ocamlfind ocamlopt -w -a -o ../driver model.mli model.ml driver.ml)
   rm -rf _obj
 fi
